@@ -165,6 +165,13 @@ VM1 = {"vm1": "only CentOS\n"}
 VM12 = {"vm1": "only CentOS\n", "vm2": "only Win10\n"}
 
 
+def retry_monitor(run: Any) -> list[Any]:
+    """every test of the update path is tried as often as max_tries, rerun_status and stop_status give (the C10 rule)"""
+    from . import c10
+
+    return [(fp.replace("C10", "C15"), what, d) for fp, what, d in c10.retry_count_monitor(run)]
+
+
 def plans(tier: str) -> list[dict[str, Any]]:
     P = trav_plans.plan
     m = [update_monitor]
@@ -176,6 +183,7 @@ def plans(tier: str) -> list[dict[str, Any]]:
         P("update of the permanent vm3, 2 workers", T("u-vm3", {}, {"vm3": "only Ubuntu\n"}, nets="net1 net2"), m, K=1, statuses=["PASS"]),
         P("update customize..customize of both variants of vm1", T("u-cc-variants", {"from_state": "customize", "to_state": "customize"}, {"vm1": ""}), m, K=1, statuses=["PASS"], pool_fixed={"install": ["own", "shared"]}),
         P("update default of vm1, two remote workers behind one gateway", T("u-default-cluster", {}, VM1, nets="cluster1.net6 cluster1.net7"), m, K=1, statuses=["PASS"]),
+        P("update customize..connect of vm1 with retries (max_tries=2, stop on pass), one failure", T("u-custom-retry", {"from_state": "customize", "to_state": "connect"}, VM1, max_tries="2", stop_status="pass"), m + [retry_monitor], K=1, statuses=["PASS", "FAIL"], max_nonpass=1, pool_fixed={"install": ["own", "shared"]}),
         P("update with a nonexistent target state", T("u-bad-to", {"to_state": "nonexistent"}, VM1, expect_error=True), m, K=1, statuses=["PASS"]),
     ]
     if tier == "thorough":
@@ -184,7 +192,7 @@ def plans(tier: str) -> list[dict[str, Any]]:
             P("update customize..on_customize of vm1", T("u-co", {"from_state": "customize", "to_state": "on_customize"}, VM1), m, K=1, statuses=["PASS", "FAIL"], max_nonpass=1, pool_fixed={"install": ["own", "shared"]}),
             P("update with a nonexistent starting state", T("u-bad-from", {"from_state": "nonexistent", "to_state": "customize"}, VM1, expect_error=True), m, K=1, statuses=["PASS"]),
             P("update default of vm1 vm2, 2 workers, one failure", T("u-default-2w", {}, VM12, nets="net1 net2"), m, K=1, statuses=["PASS", "FAIL"], max_nonpass=1),
-            P("update with retries", T("u-retry", {}, VM1, max_tries="2", stop_status="pass"), m, K=1, statuses=["PASS", "FAIL"], max_nonpass=1),
+            P("update with retries", T("u-retry", {}, VM1, max_tries="2", stop_status="pass"), m + [retry_monitor], K=1, statuses=["PASS", "FAIL"], max_nonpass=1),
         ]
     return out
 
